@@ -36,8 +36,9 @@ func (p *Parser) parseMatchAgainst(matchFunc *ast.FunctionCall) (ast.Expression,
 	}
 
 	// Consume optional mode keywords until we hit )
+	// (a semicolon ends the statement: the closing parenthesis is missing)
 	var modeWords strings.Builder
-	for !p.isType(models.TokenTypeRParen) && !p.isType(models.TokenTypeEOF) {
+	for !p.isType(models.TokenTypeRParen) && !p.isType(models.TokenTypeEOF) && !p.isType(models.TokenTypeSemicolon) {
 		modeWords.WriteString(" ")
 		modeWords.WriteString(p.currentToken.Literal)
 		p.advance()
@@ -87,6 +88,10 @@ func (p *Parser) parseShowStatement() (ast.Statement, error) {
 		// Optional FROM database
 		if p.isType(models.TokenTypeFrom) {
 			p.advance()
+			// a name must follow: a semicolon or the end of input is not one
+			if p.isType(models.TokenTypeSemicolon) || p.isType(models.TokenTypeEOF) {
+				return nil, p.expectedError("database name")
+			}
 			show.From = p.currentToken.Literal
 			p.advance()
 		}
@@ -138,7 +143,11 @@ func (p *Parser) parseShowStatement() (ast.Statement, error) {
 		show.ShowType = upper
 		p.advance()
 	default:
-		// Generic: SHOW <whatever>
+		// Generic: SHOW <whatever>; the statement's own terminator (or the end
+		// of input) is not a <whatever> and is left for the caller
+		if p.isType(models.TokenTypeSemicolon) || p.isType(models.TokenTypeEOF) {
+			return nil, p.expectedError("SHOW target")
+		}
 		show.ShowType = upper
 		p.advance()
 	}
